@@ -76,6 +76,14 @@ func (c02) Plan(tier string, seed int64) []core.Scenario {
 	for i := 0; i < 6; i++ {
 		out = append(out, core.Sc("confused").WithN("variant", i))
 	}
+	// a cancelled call whose handler ignores the cancellation for a while and answers late
+	nc := 3
+	if tier == "thorough" {
+		nc = 24
+	}
+	for i := 0; i < nc; i++ {
+		out = append(out, core.Sc("cancel-late").WithN("waitms", []int{2600, 500, 3500}[i%3]).WithN("others", 2+i%3).WithN("noise", i%3))
+	}
 	for i := range out {
 		out[i].Seed = seed*999983 + int64(i)
 	}
@@ -91,6 +99,8 @@ func (p c02) Run(sc core.Scenario) core.Result {
 		p.kv(sc, r)
 	case "confused":
 		p.confused(sc, r)
+	case "cancel-late":
+		p.cancelLate(sc, r)
 	}
 	return r.Result()
 }
@@ -208,6 +218,80 @@ func (c02) perm(sc core.Scenario, r *core.R) {
 	if n <= 6 {
 		r.Sample(map[string]interface{}{"transport": tr, "n": n, "release_order": sc.L, "kinds": kinds})
 	}
+}
+
+// cancelLate: call A is cancelled but its handler keeps running; other calls are issued; then A's
+// handler answers late. Every call must still get exactly its own response.
+func (c02) cancelLate(sc core.Scenario, r *core.R) {
+	env := NewEnv(EnvOpt{})
+	defer env.Shutdown()
+	pol := noisePolicy(sc)
+	defer pol.Install()()
+	cl, err := env.NewClient(ClientOpt{})
+	if err != nil {
+		r.Inconclusive("client: %v", err)
+		return
+	}
+	bg := context.Background()
+	actx, cancel := context.WithCancel(bg)
+	defer cancel()
+	ta := Tok("a")
+	env.Svc.Hold(ta)
+	a := Go(ta, func() (string, error) { return cl.HoldHard(actx, ta, "") }) // this handler ignores its context
+	if !env.Svc.WaitEntered(ta, core.Grace) {
+		r.Inconclusive("handler not entered")
+		return
+	}
+	cancel()
+	// the library may or may not give up on a cancelled call early; both are fine
+	a.Wait(time.Duration(sc.I("waitms")) * time.Millisecond)
+	gaveUp := a.Returned()
+	var others []*Outcome
+	for i := 0; i < sc.I("others"); i++ {
+		t := Tok("o")
+		env.Svc.Hold(t)
+		others = append(others, Go(t, func() (string, error) { return cl.Echo(bg, t, "") }))
+		env.Svc.WaitEntered(t, core.Grace)
+	}
+	env.Svc.Release(ta) // A's late response goes onto the wire now
+	select {
+	case <-env.Svc.ExitedCh(ta):
+	case <-time.After(core.Grace):
+	}
+	// give a misrouted response the chance to land: one round trip on the same connection
+	p := Tok("p")
+	if v, err := cl.Echo(bg, p, ""); err != nil || v != svc.Reply(p) {
+		r.Violate("wrong-response", "cancel-late: probe after the late response got (%q, %v)", v, err)
+	}
+	for _, o := range others {
+		if o.Returned() {
+			r.Violate("early-return", "cancel-late: call %s returned (%q, %v) while its handler is still held: it consumed the late response of the cancelled call", o.Tok, core.Trunc(o.Val, 60), o.Err)
+		}
+	}
+	for _, o := range others {
+		env.Svc.Release(o.Tok)
+		if !o.Wait(core.Grace) {
+			r.Violate("response-dropped", "cancel-late: call %s never returned", o.Tok)
+		} else if o.Err != nil || o.Val != svc.Reply(o.Tok) {
+			r.Violate("wrong-response", "cancel-late: call %s got (%q, %v) instead of its own response", o.Tok, core.Trunc(o.Val, 60), o.Err)
+		}
+	}
+	if !a.Wait(core.Grace) {
+		r.Violate("response-dropped", "cancel-late: the cancelled call never returned although its handler answered")
+	} else if a.Err == nil && a.Val != svc.Reply(ta) {
+		r.Violate("wrong-response", "cancel-late: the cancelled call returned %q", a.Val)
+	}
+	for i := 0; i < 5; i++ {
+		t := Tok("f")
+		if v, err := cl.Echo(bg, t, ""); err != nil || v != svc.Reply(t) {
+			r.Violate("wrong-response", "cancel-late: follow-up call %d got (%q, %v)", i, v, err)
+			break
+		}
+	}
+	r.Key(fmt.Sprintf("cancel-late wait=%d others=%d gaveup=%v", sc.I("waitms"), len(others), gaveUp), true)
+	r.Obs("calls", int64(len(others)+7))
+	r.Sig(core.Log.Signature())
+	r.Sample(map[string]interface{}{"scenario": "cancelled call answered late", "caller_gave_up_early": gaveUp, "concurrent_calls": len(others)})
 }
 
 // checkFrameCorrelation: the multiset of response ids equals the multiset of id-bearing request ids.
